@@ -243,6 +243,28 @@ func (s *Sim) MakeOutputs(total uint64, mode string) OutSpec {
 			spec.Outs = append(half, half[0])
 			spec.Reason = "duplicate-output"
 		}
+	case "dup-B_-diff-amount":
+		// the same blinded message twice, under two different amounts
+		spec.Outs = mk(act.Id, client.Split(total))
+		if total >= 3 {
+			base := mk(act.Id, client.Split(total-2))
+			o := client.NewOutput(s.Rng, act.Id, 1, "")
+			o2 := o
+			o2.Amount = 1
+			o.Amount = 1
+			first := o
+			second := o
+			second.Amount = 1
+			_ = first
+			// amounts 1 and 1 would be an exact duplicate: use 1 and 2 when it fits, else 1 and 1<<1 on a smaller base
+			base = mk(act.Id, client.Split(total-3))
+			a := o
+			a.Amount = 1
+			b := o
+			b.Amount = 2
+			spec.Outs = append(base, a, b)
+			spec.Reason = "duplicate-output"
+		}
 	case "already-signed":
 		spec.Outs = mk(act.Id, client.Split(total))
 		if len(s.SigOrder) > 0 {
